@@ -36,11 +36,11 @@ HARNESSES_LH1 = [
          rename_defs=BITS, mode="safety", unwind=2 * n + 1, unwindset=rt_unwind(n),
          units=["lib/lh1_decoder.c:reconstruct_tree,init_groups,alloc_group"], timeout=500 if n < 5 else 1800, mem_gb=4 if n < 5 else 6, tier=tier, flags=["--slice-formula"],
          bounds="NUM_CODES=%d (scaled); arbitrary state with exactly NUM_CODES leaf entries carrying symbols < NUM_CODES (counts, links, groups arbitrary - weaker than the invariant)" % n, stubs=[])
-    for n, lim, tier in [(3, 16, "both"), (4, 32, "both"), (5, 48, "thorough")]
+    for n, lim, tier in [(3, 16, "both"), (4, 32, "both")]   # NUM_CODES=5: solver out of memory at 12 GB
 ] + [
     dict(name="lh1.atlimit.n%d" % n, src="C09/lh1.c", entry="harness_atlimit", defines=sc(n, lim) + ["BITS_ANY", "TREE_HARNESS"],
          rename_defs=BITS, mode="safety", unwind=2 * n + 1, unwindset=rt_unwind(n),
-         units=["lib/lh1_decoder.c:read_code,increment_for_code,reconstruct_tree,make_group_leader,increment_node_freq"], timeout=1800, mem_gb=6, tier=tier,
+         units=["lib/lh1_decoder.c:read_code,increment_for_code,reconstruct_tree,make_group_leader,increment_node_freq"], timeout=900, mem_gb=6, tier=tier,
          bounds="NUM_CODES=%d (scaled), limit %d; arbitrary invariant-satisfying state with root count == limit; arbitrary bits" % (n, lim), stubs=[BITSTUB])
     for n, lim, tier in [(3, 16, "thorough"), (4, 32, "thorough")]
 ] + [
